@@ -124,8 +124,9 @@ class Condition(ConvertAnnotation):
 
     def cond_name(self) -> str:
         """Get the name of this condition"""
-        # (a `functools.partial` or a callable object has no `__name__`)
-        return self.name or getattr(self.f, '__name__', None) or repr(self.f)
+        # (a `functools.partial` or a callable object has no `__name__`. Not their `repr`: it holds a memory address)
+        return self.name or getattr(self.f, '__name__', None) \
+            or getattr(getattr(self.f, 'func', None), '__name__', None) or type(self.f).__name__
 
     def _converter(self, inner_type: t.Union[Converter[t.Any], IntoConverter], *,
                    handlers: ConverterHandlers) -> ConditionalConverter[t.Any]:
